@@ -367,6 +367,107 @@ func scanProcessState(fns []*ssa.Function) (globals []finding, maps []finding) {
 	return
 }
 
+// scanProcessMemory: R3 (second part).  Memory that outlives a state transition and
+// is not the store: sync/atomic primitives, and writes through pointers that live in
+// (or are) long-lived module structs (keepers, handlers, hooks - any module struct
+// that is not a protobuf message).  A value cached there survives a discarded
+// branch (simulation, failed tx, aborted optimistic execution), so later results
+// depend on the node's process history.
+func scanProcessMemory(fns []*ssa.Function, modPrefix string) (bad []finding) {
+	isLongLived := func(t types.Type) (string, bool) {
+		if p, ok := t.Underlying().(*types.Pointer); ok {
+			t = p.Elem()
+		}
+		n, ok := t.(*types.Named)
+		if !ok || n.Obj().Pkg() == nil || !strings.HasPrefix(n.Obj().Pkg().Path(), modPrefix) {
+			return "", false
+		}
+		if _, ok := n.Underlying().(*types.Struct); !ok {
+			return "", false
+		}
+		// protobuf messages are values travelling with a request, not process memory
+		ms := types.NewMethodSet(types.NewPointer(n))
+		if ms.Lookup(nil, "ProtoMessage") != nil {
+			return "", false
+		}
+		return shortName(n.Obj().Pkg().Path() + "." + n.Obj().Name()), true
+	}
+	syncMutator := func(name string) bool {
+		if strings.HasPrefix(name, "sync/atomic.") || strings.HasPrefix(name, "(*sync/atomic.") {
+			return !strings.Contains(name, ".Load")
+		}
+		for _, p := range []string{"(*sync.Map).", "(*sync.Once).", "(*sync.Pool).", "(*sync.WaitGroup).", "(*sync.Cond)."} {
+			if strings.HasPrefix(name, p) {
+				return true
+			}
+		}
+		return false
+	}
+	for _, fn := range fns {
+		if fn.Name() == "init" || strings.HasPrefix(fn.Name(), "init#") {
+			continue
+		}
+		for _, b := range fn.Blocks {
+			for _, in := range b.Instrs {
+				if ci, ok := in.(ssa.CallInstruction); ok {
+					if name := staticName(ci.Common()); syncMutator(name) {
+						bad = append(bad, finding{"procmem", fn, in.Pos(), "process memory: " + name + " (state outside the store survives discarded branches)"})
+					}
+					if bi, ok := ci.Common().Value.(*ssa.Builtin); ok && bi.Name() == "delete" {
+						if o, f, ok := fieldOf(ci.Common().Args[0]); ok {
+							bad = append(bad, finding{"procmem", fn, in.Pos(), "delete on struct-held map " + typeName(o) + "." + f})
+						}
+					}
+					continue
+				}
+				st, ok := in.(*ssa.Store)
+				if !ok {
+					continue
+				}
+				addr := st.Addr
+				depth := 0
+				for {
+					if fa, ok := addr.(*ssa.FieldAddr); ok {
+						addr = fa.X
+						depth++
+						continue
+					}
+					if ia, ok := addr.(*ssa.IndexAddr); ok {
+						addr = ia.X
+						depth++
+						continue
+					}
+					break
+				}
+				if depth == 0 {
+					continue
+				}
+				switch r := addr.(type) {
+				case *ssa.Parameter:
+					if n, ok := isLongLived(r.Type()); ok {
+						if _, isPtr := r.Type().Underlying().(*types.Pointer); isPtr {
+							bad = append(bad, finding{"procmem", fn, st.Pos(), "store into a field of the long-lived struct " + n + " (through parameter " + r.Name() + ")"})
+						}
+					}
+				case *ssa.UnOp:
+					if r.Op != token.MUL {
+						break
+					}
+					if _, isPtr := r.Type().Underlying().(*types.Pointer); !isPtr {
+						break // element of a slice held in a struct: ordinary data, not a shared cell
+					}
+					if fa, ok := r.X.(*ssa.FieldAddr); ok {
+						if n, ok := isLongLived(fa.X.Type()); ok {
+							bad = append(bad, finding{"procmem", fn, st.Pos(), "store through the pointer field " + fieldName(fa) + " of the long-lived struct " + n})
+						}
+					}
+				}
+			}
+		}
+	}
+	return
+}
+
 // scanSorts: R5.  Comparators of sort.Slice* must be a total order on the elements.
 func scanSorts(fns []*ssa.Function) (ok []finding, bad []finding) {
 	for _, fn := range fns {
@@ -561,10 +662,12 @@ func loadControl() ([]*ssa.Function, error) {
 			out = append(out, f.AnonFuncs...)
 		}
 		if t, ok := m.(*ssa.Type); ok {
-			ms := sp[0].Prog.MethodSets.MethodSet(types.NewPointer(t.Type()))
-			for i := 0; i < ms.Len(); i++ {
-				if f := sp[0].Prog.MethodValue(ms.At(i)); f != nil && f.Blocks != nil {
-					out = append(out, f)
+			for _, recv := range []types.Type{types.NewPointer(t.Type()), t.Type()} {
+				ms := sp[0].Prog.MethodSets.MethodSet(recv)
+				for i := 0; i < ms.Len(); i++ {
+					if f := sp[0].Prog.MethodValue(ms.At(i)); f != nil && f.Blocks != nil && f.Synthetic == "" {
+						out = append(out, f)
+					}
 				}
 			}
 		}
@@ -745,6 +848,12 @@ func propC18(c *Ctx) {
 		if !seen {
 			om.Fail("-", "the tabled exception was not found (anchor lost)", nil)
 		}
+		op := c.Ob("C18.R3", "no process memory outside the store: no sync/atomic primitive, no delete on struct-held maps, no write through pointers held by keepers/handlers/hooks")
+		pm := scanProcessMemory(fns, modPath)
+		op.Sites = len(fns)
+		for _, b := range pm {
+			op.Fail(c.W.Pos(b.pos), b.msg+" in "+fnShort(b.fn), nil)
+		}
 		oc := c.Ob("C18.R3", "positive control: global store and struct-held map write are flagged in the control package")
 		if cerr != nil {
 			oc.Undecide("control package: " + cerr.Error())
@@ -753,6 +862,25 @@ func propC18(c *Ctx) {
 			oc.Sites = len(g) + len(m)
 			if len(g) == 0 || len(m) == 0 {
 				oc.Fail("-", fmt.Sprintf("control: %d global stores, %d struct map writes detected (want >= 1 each)", len(g), len(m)), nil)
+			}
+			kinds := map[string]bool{}
+			for _, b := range scanProcessMemory(ctl, "opverify/") {
+				oc.Sites++
+				switch {
+				case strings.Contains(b.msg, "sync.Map"):
+					kinds["sync"] = true
+				case strings.Contains(b.msg, "delete on struct-held map"):
+					kinds["delete"] = true
+				case strings.Contains(b.msg, "pointer field"):
+					kinds["ptrfield"] = true
+				case strings.Contains(b.msg, "through parameter"):
+					kinds["param"] = true
+				}
+			}
+			for _, k := range []string{"sync", "delete", "ptrfield", "param"} {
+				if !kinds[k] {
+					oc.Fail("-", "process-memory control '"+k+"' not detected", nil)
+				}
 			}
 		}
 	})
